@@ -312,6 +312,7 @@ pub fn write_float_nonscientific<const FORMAT: u128>(
         // We have more leading digits than digits we wrote: can write
         // any additional digits, and then just write the remaining zeros.
         bytes[integer_count..integer_length].fill(b'0');
+        digit_count = integer_length;
     }
     let mut cursor = integer_length;
     bytes[cursor] = decimal_point;
